@@ -385,6 +385,23 @@ DefGenOut gen_deflate_stream(const Json &spec)
                                                 break;
                                         }
                         }
+                        if (inject && fault == GF_OVERSUB_LL && rld.chance(1, 3)) {
+                                // third shape: the excess sits at the 15-bit level alone - a complete chain 1,2,...,14,15,15 over sixteen
+                                // symbols (end-of-block among them) plus one to three more 15-bit code words; every level up to 14 is in order
+                                std::fill(l2.begin(), l2.end(), 0);
+                                std::vector<int> syms;
+                                syms.push_back(256);
+                                while (syms.size() < 19) {
+                                        int c = (int) rld.below(286);
+                                        if (std::find(syms.begin(), syms.end(), c) == syms.end())
+                                                syms.push_back(c);
+                                }
+                                for (size_t q = syms.size(); q > 1; q--)
+                                        std::swap(syms[q - 1], syms[rld.below(q)]);
+                                int extra = 1 + (int) rld.below(3);
+                                for (int q = 0; q < 16 + extra; q++)
+                                        l2[syms[q]] = (uint8_t) (q < 15 ? q + 1 : 15);
+                        }
                         if (inject && fault == GF_OVERSUB_D) {
                                 std::vector<uint32_t> f2(30, 0);
                                 for (int s = 0; s < 30; s++)
